@@ -74,8 +74,10 @@ func (l *wktLex) Lex(yylval *wktSymType) int {
 	// Lex a token.
 	switch c := l.peek(); c {
 	case eof:
+		verifEmit(l, "tok", "EOF", true)
 		return eof
 	case '(', ')', ',':
+		verifEmit(l, "tok", string(c), true)
 		return int(l.next())
 	default:
 		switch {
@@ -86,6 +88,7 @@ func (l *wktLex) Lex(yylval *wktSymType) int {
 		default:
 			l.next()
 			l.setLexError("character")
+			verifEmit(l, "tok", "LEXERR", false)
 			return eof
 		}
 	}
@@ -122,6 +125,7 @@ func (l *wktLex) keyword() int {
 		l.setLexError("keyword")
 	}
 
+	verifEmit(l, "tok", b.String(), ret != eof)
 	return ret
 }
 
@@ -140,9 +144,11 @@ func (l *wktLex) num(yylval *wktSymType) int {
 	fl, err := strconv.ParseFloat(b.String(), 64)
 	if err != nil {
 		l.setLexError("number")
+		verifEmit(l, "tok", "LEXERR", false)
 		return eof
 	}
 	yylval.coord = fl
+	verifEmit(l, "tok", "NUM", true)
 	return NUM
 }
 
@@ -183,9 +189,11 @@ func (l *wktLex) trimLeft() {
 func (l *wktLex) validateStrideAndSetDefaultLayoutIfNoLayout(stride int) bool {
 	if !isValidStrideForLayout(stride, l.curLayout()) {
 		l.setIncorrectStrideError(stride, "")
+		verifEmit(l, "validateStrideAndSetDefaultLayoutIfNoLayout", fmt.Sprint(stride), false)
 		return false
 	}
 	l.setLayoutIfNoLayout(defaultLayoutForStride(stride))
+	verifEmit(l, "validateStrideAndSetDefaultLayoutIfNoLayout", fmt.Sprint(stride), true)
 	return true
 }
 
@@ -198,8 +206,10 @@ func (l *wktLex) validateNonEmptyGeometryAllowed() bool {
 			panic("nextPointMustBeEmpty is true but layout is not XYM")
 		}
 		l.setIncorrectUsageOfBaseTypeInsteadOfMVariantInGeometryCollectionError()
+		verifEmit(l, "validateNonEmptyGeometryAllowed", "", false)
 		return false
 	}
+	verifEmit(l, "validateNonEmptyGeometryAllowed", "", true)
 	return true
 }
 
@@ -208,9 +218,11 @@ func (l *wktLex) validateNonEmptyGeometryAllowed() bool {
 func (l *wktLex) validateAndSetLayoutIfNoLayout(layout geom.Layout) bool {
 	if !isCompatibleLayout(l.curLayout(), layout) {
 		l.setIncorrectLayoutError(layout, "")
+		verifEmit(l, "validateAndSetLayoutIfNoLayout", layoutName(layout), false)
 		return false
 	}
 	l.setLayoutIfNoLayout(layout)
+	verifEmit(l, "validateAndSetLayoutIfNoLayout", layoutName(layout), true)
 	return true
 }
 
@@ -224,6 +236,7 @@ func (l *wktLex) validateBaseGeometryTypeAllowed() bool {
 		if l.curLayout() == geom.XYM {
 			l.lytStack.setTopNextPointMustBeEmpty(true)
 		}
+		verifEmit(l, "validateBaseGeometryTypeAllowed", "", true)
 		return true
 	}
 
@@ -235,8 +248,10 @@ func (l *wktLex) validateBaseGeometryTypeAllowed() bool {
 			panic("base geometry check for XYM layout should not happen at top level")
 		}
 		l.setIncorrectUsageOfBaseTypeInsteadOfMVariantInGeometryCollectionError()
+		verifEmit(l, "validateBaseGeometryTypeAllowed", "", false)
 		return false
 	default:
+		verifEmit(l, "validateBaseGeometryTypeAllowed", "", true)
 		return true
 	}
 }
@@ -250,6 +265,7 @@ func (l *wktLex) validateBaseTypeEmptyAllowed() bool {
 		if l.curLayout() == geom.XYM {
 			l.lytStack.setTopNextPointMustBeEmpty(false)
 		}
+		verifEmit(l, "validateBaseTypeEmptyAllowed", "", true)
 		return true
 	}
 
@@ -259,9 +275,11 @@ func (l *wktLex) validateBaseTypeEmptyAllowed() bool {
 		l.setLayoutIfNoLayout(geom.XY)
 		fallthrough
 	case geom.XY:
+		verifEmit(l, "validateBaseTypeEmptyAllowed", "", true)
 		return true
 	default:
 		l.setIncorrectLayoutError(geom.XY, "EMPTY is XY layout in base geometry type")
+		verifEmit(l, "validateBaseTypeEmptyAllowed", "", false)
 		return false
 	}
 }
@@ -272,9 +290,11 @@ func (l *wktLex) validateAndPushLayoutStackFrame(layout geom.Layout) bool {
 	// Note a base type GEOMETRYCOLLECTION is permitted inside every layout.
 	if layout != geom.NoLayout && !isCompatibleLayout(l.curLayout(), layout) {
 		l.setIncorrectLayoutError(layout, "")
+		verifEmit(l, "validateAndPushLayoutStackFrame", layoutName(layout), false)
 		return false
 	}
 	l.lytStack.push(layout)
+	verifEmit(l, "validateAndPushLayoutStackFrame", layoutName(layout), true)
 	return true
 }
 
@@ -287,6 +307,7 @@ func (l *wktLex) validateAndPopLayoutStackFrame() bool {
 		panic("uncaught layout incompatibility")
 	}
 	l.setLayoutIfNoLayout(poppedLayout)
+	verifEmit(l, "validateAndPopLayoutStackFrame", "", true)
 	return true
 }
 
@@ -300,11 +321,13 @@ func (l *wktLex) isValidPoint(flatCoords []float64) bool {
 	switch stride := len(flatCoords); stride {
 	case 1:
 		l.setParseError("not enough coordinates", "each point needs at least 2 coords")
+		verifEmit(l, "validateStrideAndSetDefaultLayoutIfNoLayout", fmt.Sprint(stride), false)
 		return false
 	case 2, 3, 4:
 		return l.validateStrideAndSetDefaultLayoutIfNoLayout(stride)
 	default:
 		l.setParseError("too many coordinates", "each point can have at most 4 coords")
+		verifEmit(l, "validateStrideAndSetDefaultLayoutIfNoLayout", fmt.Sprint(stride), false)
 		return false
 	}
 }
@@ -313,8 +336,10 @@ func (l *wktLex) isValidLineString(flatCoords []float64) bool {
 	stride := l.curLayout().Stride()
 	if len(flatCoords) < 2*stride {
 		l.setParseError("non-empty linestring with only one point", "minimum number of points is 2")
+		verifEmit(l, "isValidLineString", "", false)
 		return false
 	}
+	verifEmit(l, "isValidLineString", "", true)
 	return true
 }
 
@@ -322,6 +347,7 @@ func (l *wktLex) isValidPolygonRing(flatCoords []float64) bool {
 	stride := l.curLayout().Stride()
 	if len(flatCoords) < 4*stride {
 		l.setParseError("polygon ring doesn't have enough points", "minimum number of points is 4")
+		verifEmit(l, "isValidPolygonRing", "", false)
 		return false
 	}
 	dimensions := 2
@@ -331,9 +357,11 @@ func (l *wktLex) isValidPolygonRing(flatCoords []float64) bool {
 	for i := range dimensions {
 		if flatCoords[i] != flatCoords[len(flatCoords)-stride+i] {
 			l.setParseError("polygon ring not closed", "ensure first and last point are the same")
+			verifEmit(l, "isValidPolygonRing", "", false)
 			return false
 		}
 	}
+	verifEmit(l, "isValidPolygonRing", "", true)
 	return true
 }
 
